@@ -143,7 +143,7 @@ Qed.
 
 Lemma ffs_cons names n tg an t r :
   ffs names (FCons n tg an t r) =
-  (x <- (if negb (exported n) then Ok (zero t)
+  (x <- (if negb (xexported n) then Ok (zero t)
          else
            p <- fty (if an then names else names ++ [n]) t ;;
            if has_alias tags tg then
@@ -333,7 +333,7 @@ Qed.
 
 (* one step of ReverseTranslate's loop, with the slice made explicit *)
 Lemma rev_layer_step subrev m e r (pre chunk rest : list fvt) :
-  exported (sfo_name (me_in e)) = true -> length chunk = length (me_out e) ->
+  xexported (sfo_name (me_in e)) = true -> length chunk = length (me_out e) ->
   rev_layer E subrev m (e :: r) (pre ++ chunk ++ rest) (length pre) =
   (nv <- unmangle_field E subrev m e chunk ;;
    rs <- rev_layer E subrev m r ((pre ++ chunk) ++ rest) (length (pre ++ chunk)) ;;
@@ -358,7 +358,7 @@ Definition zipv (lf : list sfield) (vals : list val) : list fvt := combine lf (c
 
 Lemma ffs_pack_cons names f r :
   ffs names (pack (f :: r)) =
-  (x <- (if negb (exported (sf_name f)) then Ok (zero (sf_ty f))
+  (x <- (if negb (xexported (sf_name f)) then Ok (zero (sf_ty f))
          else
            p <- fty (fnames names f) (sf_ty f) ;;
            if has_alias tags (sf_tags f) then
@@ -579,7 +579,7 @@ Qed.
 
 (* ---------- C14 at source level: the value given under either name is the field's value ---------- *)
 Lemma spec_aliased_leaf E env tags names n tg t r :
-  wf_ty t = true -> leaf_ok t = true -> under_is_struct t = false -> exported n = true ->
+  wf_ty t = true -> leaf_ok t = true -> under_is_struct t = false -> xexported n = true ->
   has_alias tags tg = true ->
   bound env (enc0 (names ++ [n])) -> bound env (enc0 (names ++ [n ++ alias_field_suffix])) ->
   fspec_fields E (Shape tags (Some 0%N) false false false) env 0%N names (FCons n tg false t r) =
